@@ -139,15 +139,19 @@ func checkHubArgs(prog *ssa.Program, fnName string, ev map[string]interface{}) (
 			}
 			ld, ok := c.Call.Args[1].(*ssa.UnOp)
 			if !ok {
-				return fmt.Sprintf("%s: session argument of %s is not a load of the session's ID field (%s)", fnName, m, c.Call.Args[1]), ""
+				return "", fmt.Sprintf("session argument of %s has a shape this obligation does not trace (%s)", m, c.Call.Args[1])
 			}
 			fa, ok := ld.X.(*ssa.FieldAddr)
 			if !ok {
-				return fmt.Sprintf("%s: session argument of %s is not a load of the session's ID field (%s)", fnName, m, ld.X), ""
+				return "", fmt.Sprintf("session argument of %s has a shape this obligation does not trace (%s)", m, ld.X)
+			}
+			if strings.HasSuffix(fa.X.Type().String(), "protocol.Envelope") {
+				// taken from the message the peer sent: the peer chooses the session
+				return fmt.Sprintf("%s: %s is given a session id read from the received envelope (%s)", fnName, m, fa), ""
 			}
 			st, ok := fa.X.Type().Underlying().(*types.Pointer).Elem().Underlying().(*types.Struct)
 			if !ok || st.Field(fa.Field).Name() != "ID" || !strings.HasSuffix(fa.X.Type().String(), "session.Session") {
-				return fmt.Sprintf("%s: session argument of %s is %s, not <session>.ID", fnName, m, fa), ""
+				return "", fmt.Sprintf("session argument of %s is %s: not traced", m, fa)
 			}
 			if base == nil {
 				base = fa.X
@@ -156,8 +160,13 @@ func checkHubArgs(prog *ssa.Program, fnName string, ev map[string]interface{}) (
 			}
 			if m == "BroadcastExcept" {
 				ex, ok := c.Call.Args[2].(*ssa.UnOp)
+				if ok {
+					if fa2, ok2 := ex.X.(*ssa.FieldAddr); ok2 && strings.HasSuffix(fa2.X.Type().String(), "protocol.Envelope") {
+						return fmt.Sprintf("%s: BroadcastExcept excepts a peer id read from the received envelope (%s)", fnName, fa2), ""
+					}
+				}
 				if !ok || !(strings.Contains(valueComment(ex.X), "peerID") || debugName(ex) == "peerID" || strings.Contains(ex.X.Name()+ex.X.String(), "peerID")) {
-					return fmt.Sprintf("%s: BroadcastExcept does not except the connection's own peer id (%s)", fnName, c.Call.Args[2]), ""
+					return "", fmt.Sprintf("BroadcastExcept's excepted peer has a shape this obligation does not trace (%s)", c.Call.Args[2])
 				}
 			}
 		}
@@ -187,7 +196,7 @@ func checkHubArgs(prog *ssa.Program, fnName string, ev map[string]interface{}) (
 // is a constant that rules it out); each satisfiable site is reported with its witness.
 func checkWidenedProducts(prog *ssa.Program, pkgSuffix string, ev map[string]interface{}) []string {
 	var out []string
-	sites, asked := 0, 0
+	sites, asked, ignored := 0, 0, 0
 	for fn := range ssautilAll(prog) {
 		if fn.Pkg == nil || !strings.HasSuffix(fn.Pkg.Pkg.Path(), pkgSuffix) || fn.Blocks == nil {
 			continue
@@ -212,6 +221,10 @@ func checkWidenedProducts(prog *ssa.Program, pkgSuffix string, ev map[string]int
 				}
 				op := bo.Op.String()
 				if op != "*" && op != "<<" {
+					continue
+				}
+				if !mentionsChunk(bo.X) && !mentionsChunk(bo.Y) {
+					ignored++ // not chunk geometry: outside this obligation
 					continue
 				}
 				sites++
@@ -244,7 +257,7 @@ func checkWidenedProducts(prog *ssa.Program, pkgSuffix string, ev map[string]int
 			}
 		}
 	}
-	ev["cfg:widened narrow products"] = map[string]interface{}{"sites": sites, "queries": asked, "reported": len(out)}
+	ev["cfg:widened narrow products"] = map[string]interface{}{"sites": sites, "queries": asked, "reported": len(out), "narrow_products_without_chunk_operands": ignored}
 	sort.Strings(out)
 	return out
 }
@@ -260,4 +273,42 @@ func constUint64(c *ssa.Const) (uint64, bool) {
 		return uint64(v), true
 	}
 	return 0, false
+}
+
+
+// mentionsChunk: the value is (a load / conversion / field of) something named after a chunk index, size,
+// length or count - the operands of offset arithmetic.
+func mentionsChunk(v ssa.Value) bool {
+	for depth := 0; depth < 6 && v != nil; depth++ {
+		name := strings.ToLower(v.Name() + " " + debugName(v) + " " + valueComment(v))
+		if fa, ok := v.(*ssa.FieldAddr); ok {
+			if st, ok := fa.X.Type().Underlying().(*types.Pointer).Elem().Underlying().(*types.Struct); ok {
+				name += " " + strings.ToLower(st.Field(fa.Field).Name())
+			}
+		}
+		if f, ok := v.(*ssa.Field); ok {
+			if st, ok := f.X.Type().Underlying().(*types.Struct); ok {
+				name += " " + strings.ToLower(st.Field(f.Field).Name())
+			}
+		}
+		if p, ok := v.(*ssa.Parameter); ok {
+			name += " " + strings.ToLower(p.Name())
+		}
+		if strings.Contains(name, "chunk") || strings.Contains(name, "idx") {
+			return true
+		}
+		switch x := v.(type) {
+		case *ssa.UnOp:
+			v = x.X
+		case *ssa.Convert:
+			v = x.X
+		case *ssa.ChangeType:
+			v = x.X
+		case *ssa.FieldAddr:
+			return false
+		default:
+			return false
+		}
+	}
+	return false
 }
